@@ -3,6 +3,8 @@ package net
 import (
 	"bytes"
 	"fmt"
+	"github.com/basecomplextech/baselibrary/async"
+	"net"
 	"sync"
 	"sync/atomic"
 	"time"
@@ -242,6 +244,28 @@ func C18(c *runner.Cfg) *report.Result {
 			}
 		}(g)
 	}
+	// client life cycles: auto-connect clients whose first dial fails at once (nobody listens), so
+	// that the connect routine races with the constructor and with Close
+	bg.Add(1)
+	go func() {
+		defer bg.Done()
+		ln, err := net.Listen("tcp", "127.0.0.1:0")
+		if err != nil {
+			return
+		}
+		dead := ln.Addr().String()
+		ln.Close()
+		for k := 0; k < 80; k++ {
+			cl := mpx.NewClient(dead, mpx.ClientMode_AutoConnect, logger, mpx.Default())
+			if k%2 == 0 {
+				time.Sleep(time.Duration(k) * 5 * time.Microsecond)
+			}
+			if k%4 == 1 {
+				cl.Conn(async.TimeoutContext(time.Millisecond))
+			}
+			cl.Close()
+		}
+	}()
 	// server life cycles (start/stop racing with the accept loop) share the process as well
 	bg.Add(1)
 	go func() {
